@@ -113,11 +113,24 @@ def timelines(tier, seed):
     return list(vt.timelines(N, alphabet(tier, seed), terminals=("C", "E", None), bursts=True, same_instant_terminal=True))
 
 
+NONE_ALPHA = (None, 7, 0)
+
+
 def all_cases(tier, seed):
+    alpha = alphabet(tier, seed)
     tls = timelines(tier, seed)
     for inst in instances(tier):
         for tl in tls:
-            yield inst, tl
+            yield inst, tl, alpha
+    if None not in alpha:
+        # whatever the seed, elements whose *key is None* are always covered (key = identity over an alphabet containing None)
+        a2 = NONE_ALPHA[: len(alpha)]
+        N = bounds(tier)["N"]
+        tls2 = list(vt.timelines(N, a2, terminals=("C", "E", None), bursts=True, same_instant_terminal=True))
+        for inst in instances(tier):
+            if inst.get("key") == "id":
+                for tl in tls2:
+                    yield inst, tl, a2
 
 
 # ------------------------------------------------------------------ reference model
@@ -319,9 +332,8 @@ def signature(inst, label):
 
 
 def shard(part: core.Part, shard_i, nshards, tier, seed, deadline):
-    alpha = alphabet(tier, seed)
     n = 0
-    for (inst, tl) in core.shard_iter(all_cases(tier, seed), shard_i, nshards):
+    for (inst, tl, alpha) in core.shard_iter(all_cases(tier, seed), shard_i, nshards):
         n += 1
         if n % 128 == 0 and time.time() > deadline:
             part.complete = False
